@@ -118,6 +118,10 @@ func init() {
 		fileOps(c, e, OpFilter{Keep: func(rule, construct string) bool {
 			return strings.HasPrefix(rule, "C01.") || rule == "interp" || rule == "S6.panic"
 		}})
+		c.R.Rule("local rules (premise of the total derivative): the C02 obligations A1/A2/A3/S1c for every differentiable operation are re-run here — a correct walk over wrong local rules is not the total derivative")
+		RunOps(c, OpFilter{Methods: append(append([]string{}, differentiableOps...), "Concat"), Keep: func(rule, construct string) bool {
+			return isGradRule(rule) && !isBroadcastConstruct(construct)
+		}})
 		c.R.Count("walk.programs", st.Programs)
 		c.R.Count("walk.leaf_gradient_comparisons", st.GradChecks)
 		c.R.Count("walk.rule_applications_interpreted", st.ClosureRuns)
